@@ -2,7 +2,7 @@ package main
 
 // C07, TIME, second part: input FAMILIES on which the scan time of the GenBank reader is NOT
 // proportional to the input (findings K7D … K7H, found with the cost-counting reading of the model,
-// Gts/Lemmas/GbCost.lean, and by measurement).
+// Gts/Lemmas/GbCost.lean, and by measurement; K7D is repaired, F38, its family stays as a regression test).
 //
 // Every family is generated in two sizes, n and 4n (input sizes in the ratio 1:4), and judged by the
 // rule of the time oracle above: with t(n) the minimum CPU time (of the scanning thread) of three
@@ -36,9 +36,10 @@ const famTail = "ORIGIN      \n        1 acgt\n//\n"
 const famFeat = "FEATURES             Location/Qualifiers\n"
 
 var c07TimeFamilies = []timeFamily{
-	// K7D: n CONTIG lines and no colon behind them: pars.Until(':') scans to the end of the input on
-	// every line, then the line is kept as an unknown field.  An ACCEPTED record.
-	{"contig-no-colon", "K7D", 800, func(n int) []byte {
+	// F38 (was K7D, repaired in a4b3f5d: no finding any more, SUPERLINEAR here is a violation): n CONTIG
+	// lines and no colon behind them: pars.Until(':') scanned to the end of the input on every line, then
+	// the line was kept as an unknown field.  An ACCEPTED record.
+	{"contig-no-colon", "", 1600, func(n int) []byte { // 1600: the repaired scan of 800 lines takes 2 ms, near the 1 ms below which nothing is compared
 		return []byte(famHead + strings.Repeat("CONTIG      join(x\n", n) + famTail)
 	}},
 	// K7E: one quoted qualifier value with n continuation lines: the prefix loop of
